@@ -3,6 +3,7 @@ from __future__ import annotations
 
 import hashlib
 import io
+import random
 import re
 import zipfile
 
@@ -451,7 +452,10 @@ def do_op(rng, prs, st):
         g = a_slide().shapes.add_group_shape(); g.shapes.add_textbox(0, 0, 5, 5).text_frame.text = "g"
         return "add_group"
     if r < 0.64:
-        s = a_slide(); ns = s.notes_slide
+        s = a_slide()
+        st["last"] = {"slide": s.part, "pres": prs.part}
+        st["pre_after_slide_pick"] = snapshot(prs)
+        ns = s.notes_slide
         if rng.random() < 0.5 and ns.notes_text_frame is not None:
             ns.notes_text_frame.text = "note %d" % rng.randint(0, 9)
         return "notes_slide"
@@ -580,6 +584,24 @@ def predicted(ctx, prs, st, desc, pre, pre_parts, post, post_parts, ids):
         if len(newk) != 2 or len(ch) != 1 or len(xl) != 1:
             return None
         op = "chart %d %d %d" % (ids(id(last["slide"])), ids(ch[0]), ids(xl[0]))
+    elif desc == "notes_slide":
+        from pptx.parts.slide import NotesMasterPart, NotesSlidePart
+        if not newk:
+            return None   # the slide had its notes slide already: nothing is created
+        nn = [k for k in newk if isinstance(post_parts[k], NotesSlidePart)]
+        nm = [k for k in newk if isinstance(post_parts[k], NotesMasterPart)]
+        nt = [k for k in newk if k not in nn and k not in nm]
+        pres_k = id(last["pres"])
+        had = [t[1] for t in pre[pres_k][2].values() if t[0] == "i" and isinstance(pre_parts.get(t[1]), NotesMasterPart)]
+        if len(nn) != 1 or (had and (nm or nt)) or (not had and (len(nm) != 1 or len(nt) != 1)):
+            ctx.fail("notes-slide-parts", f"slide.notes_slide created parts {[str(post_parts[k].partname) for k in newk]} "
+                     f"({'the presentation part had a notes master' if had else 'no notes master before'})", {"hist": desc})
+            return None
+        if not had and "/ppt/notesMasters/notesMaster1.xml" in [v[0] for v in pre.values()]:
+            ctx.count("notes-master-name-taken(the model's excluded point)")
+            return None
+        op = "notes %d %d %s %d %d %d" % (ids(pres_k), ids(id(last["slide"])), ids(had[0]) if had else "none",
+                                         ids(nm[0]) if nm else 0, ids(nt[0]) if nt else 0, ids(nn[0]))
     else:
         return None
     for k in newk:
@@ -613,7 +635,7 @@ def run_history(ctx, rng, thorough=False):
         ctx.count("op-" + desc)
         new, new_parts = snapshot(prs)
         steps.append(enc_deltas(deltas(snap, new), ids))
-        if desc in ("add_slide", "add_picture", "add_chart"):
+        if desc in ("add_slide", "add_picture", "add_chart", "notes_slide"):
             pre, pre_parts = st.pop("pre_after_slide_pick", None) or (snap, snap_parts)
             try:
                 pr = predicted(ctx, prs, st, desc, pre, pre_parts, new, new_parts, ids)
@@ -719,8 +741,38 @@ def slide_numbering(ctx):
             ctx.disagree("slide-numbering", meta, i, m)
 
 
+def notes_master_name_taken(ctx):
+    """the point `Props/C02P.predict_ok` excludes for `addNotes` (`notes_fixed_name_collides`), run on the real library: a deck
+    whose notes master is in the package (a notes slide relates it) while the presentation part is not related to it;
+    `notes_slide` on a slide without notes then creates the default master under the name already taken"""
+    import warnings
+    import zipfile
+
+    from pptx import Presentation
+    from harness.props.c12 import irregular_variants
+
+    for label, data in irregular_variants(random.Random(1)):
+        if "notes master related from its notes slide only" not in label:
+            continue
+        prs = Presentation(io.BytesIO(data))
+        target = next((s for s in prs.slides if not s.has_notes_slide), None)
+        if target is None:
+            continue
+        target.notes_slide
+        b = io.BytesIO()
+        with warnings.catch_warnings():
+            warnings.simplefilter("ignore")
+            prs.save(b)
+        names = zipfile.ZipFile(io.BytesIO(b.getvalue())).namelist()
+        dup = sorted({n for n in names if names.count(n) > 1})
+        ctx.case(key=("notes-master-name-taken",)); ctx.count("excluded-point-runs")
+        if dup:
+            ctx.fail("notes-master-name-taken", f"{label}: slide.notes_slide on a slide without notes; the saved package holds {dup} twice", {"deck": label})
+
+
 def correspond(ctx):
     slide_numbering(ctx)
+    notes_master_name_taken(ctx)
     rng = ctx.rng
     lines, hists = [], []
     n = 60 if ctx.quick else 1000
